@@ -196,6 +196,71 @@ def T6(ctx, mods=None):
     return n
 
 
+def T7(ctx, mods=None):
+    """The dependence lookup depends on nothing but the pending action and the access records: every test inside
+    last_dependent_access reads the action, an access slot, or a marker that set_last_access maintains - never other object
+    state (a reference count, a lock holder, ..), which would make two operations independent in some states only."""
+    prog = ctx.prog
+    n = 0
+    for mod in (mods or KINDS):
+        t = dependence_table(ctx, mod)
+        if t is None:
+            continue
+        lda = t["state"] + "::last_dependent_access"
+        sla = t["state"] + "::set_last_access"
+        body = prog.fns[lda].body
+        slots = set()
+        for a in t["actions"]:
+            slots |= t["reads"][a] | t["writes"][a]
+        maintained = {f for (a_, f), ws in prog.writers().items() if a_ == t["state"] and any(w["fn"] == sla for w in ws)}
+        n += 1
+        alien = []
+        for b in sorted(body.reachable()):
+            tm = body.term(b)
+            if tm["k"] != "switch" or body.blocks[b]["cleanup"]:
+                continue
+            e = body.expr_of_operand(tm["op"])
+            for x in subexprs(e):
+                if x[0] == "field" and x[3] == t["state"] and x[2] not in slots and x[2] not in maintained:
+                    alien.append((b, x[2]))
+        if alien:
+            ctx.bad("T7", t["state"], "last_dependent_access consults `%s`, which is neither an access record nor maintained by set_last_access: "
+                    "whether two operations are dependent then varies with the object's state, and races in the other states are never "
+                    "reversed" % alien[0][1], site_str(prog, lda, alien[0][0]), detail=alien[0][1])
+        else:
+            ctx.ok("T7", t["state"], "tests only the action, the access slots %s and markers %s" % (sorted(slots), sorted(maintained - slots)),
+                   [prog.fns[lda].loc()])
+    return n
+
+
+DPOR_VV_WRITERS = {
+    # function -> what it may do with Thread.dpor_vv
+    "rt::thread::Thread::new": "construct",
+    "rt::execution::Execution::new_thread": "the child starts from the parent's clock",
+    SCHEDULE: "join with the last dependent access of the executed operation; tick the own component",
+}
+
+
+def T8(ctx):
+    """Thread.dpor_vv (the clock races are judged against) is written only where the reduction's theory says: at spawn and in
+    Execution::schedule.  Any other join orders operations for DPOR that no executed dependent access ordered: races involving
+    them are never reversed."""
+    prog = ctx.prog
+    n = 0
+    for w in prog.writers().get((T, "dpor_vv"), []):
+        fk = enclosing_fn(w["fn"])
+        if w["kind"] == "borrow_mut" and not w["exact"]:
+            continue
+        n += 1
+        if fk in DPOR_VV_WRITERS or is_reinit_write(prog, w, T, "dpor_vv", T + "::new"):
+            ctx.ok("T8", fk, DPOR_VV_WRITERS.get(fk, "re-initialised between iterations"), [site_str(prog, w["fn"], w["bb"])])
+        else:
+            ctx.bad("T8", fk, "Thread.dpor_vv is modified by %s (%s): the thread's later operations are treated as ordered after "
+                    "operations no dependent access ordered them with, so DPOR records no backtrack point for those races" % (fk, w["kind"]),
+                    site_str(prog, w["fn"], w["bb"]), detail="dpor_vv")
+    ctx.floor("T8", n, 4, "Thread::new, new_thread join, schedule join + tick")
+
+
 # required conflicts (hand-written commutation tables from the semantics of each primitive)
 REQUIRED = {
     "rt::atomic": [("Load", "Store"), ("Load", "Rmw"), ("Store", "Store"), ("Store", "Rmw"), ("Rmw", "Rmw")],
@@ -301,6 +366,17 @@ def T4(ctx):
         un = unreachable_if(body, b, assume_calls({"rt::access::Access::happens_before": True}))
         re = not unreachable_if(body, b, assume_calls({"rt::access::Access::happens_before": False}))
         a1 = canon(arg_expr(body, t, 1))
+        # nothing else may decide whether the race is recorded: the guards of the backtrack call test only the pending operation,
+        # the dependent access and its happens-before relation
+        extra = []
+        for (ge, pol, v, sb) in guard_atoms(body, b):
+            txt = canon(ge)
+            if any(k in txt for k in ("operation", "last_dependent_access", "happens_before", "Iterator::next")):
+                continue
+            extra.append(txt[:80])
+        if extra:
+            ctx.bad("T4", fn_key, "recording a backtrack point additionally depends on `%s`: races detected while that does not hold are "
+                    "never reversed" % extra[0], site_str(prog, fn_key, b), detail="backtrack-extra-guard")
         if un and re and "path_id" in a1 and mentions_call(arg_expr(body, t, 1), "rt::access::Access::path_id"):
             ctx.ok("T4", "schedule:backtrack", "backtrack(access.path_id(), thread) iff !access.happens_before(thread.dpor_vv)",
                    [site_str(prog, fn_key, b)])
@@ -678,6 +754,10 @@ def run_all(ctx, which):
             T5(ctx)
         elif w == "T6":
             ctx.floor("T6", T6(ctx), 1, "Arc Inspect (inc / dec slots)")
+        elif w == "T7":
+            ctx.floor("T7", T7(ctx), 7, "7 object kinds")
+        elif w == "T8":
+            T8(ctx)
         elif w == "V1":
             V1(ctx)
         elif w == "V2":
